@@ -217,7 +217,11 @@ func gen(r *hv.Rng, i int, tier string) (string, hv.Val) {
 		if typ == 6 { // malformed head
 			kind = 2
 			tags["malformed"] = true
-			switch r.Intn(4) {
+			switch r.Intn(6) {
+			case 4: // request target one byte over MaxHeaderUriBytes (256): 414
+				fmt.Fprintf(&hd, "GET /%s HTTP/1.1\r\nHost: example.org\r\nX-Verif-Id: %s\r\nX-Verif-Spec: %s\r\n\r\n", strings.Repeat("u", 256), id, id)
+			case 5: // invalid method byte
+				fmt.Fprintf(&hd, "G(T / HTTP/1.1\r\nHost: example.org\r\nX-Verif-Id: %s\r\nX-Verif-Spec: %s\r\n\r\n", id, id)
 			case 0:
 				hd.WriteString("FOO\r\n\r\n")
 			case 1:
@@ -231,7 +235,12 @@ func gen(r *hv.Rng, i int, tier string) (string, hv.Val) {
 			total += hd.Len()
 			continue
 		}
-		fmt.Fprintf(&hd, "%s /c28/%d HTTP/1.%d\r\nHost: example.org\r\nX-Verif-Id: %s\r\nX-Verif-Spec: %s\r\n", method, k, minor, id, id)
+		path := fmt.Sprintf("/c28/%d", k)
+		if total < 2000 && r.Chance(1, 25) {
+			path = "/" + strings.Repeat("u", 255) // exactly MaxHeaderUriBytes: still accepted
+			tags["uri-max"] = true
+		}
+		fmt.Fprintf(&hd, "%s %s HTTP/1.%d\r\nHost: example.org\r\nX-Verif-Id: %s\r\nX-Verif-Spec: %s\r\n", method, path, minor, id, id)
 		if minor == 0 && r.Chance(2, 3) {
 			hd.WriteString("Connection: keep-alive\r\n")
 			tags["10ka"] = true
